@@ -336,8 +336,19 @@ def replay_case(path):
     work = common.tmpdir("c08r-")
     S._CTX["work"] = work
     try:
+        if rp.get("kind") == "sigkill":
+            from harness.checks import system as S2
+            common.rmtree(work)
+            return S2.replay_main(PID, path)
         r = crash_case((0, rp["scenario"], [tuple(p) for p in rp["points"]]))
         bad = list(r["problems"])
+        if rp.get("spec") == "TraceCrash":
+            chk = common.Check(PID, "quick", "fault_enumeration")
+            before = len(chk.violations) if hasattr(chk.violations, "__len__") else chk.violations
+            validate_crash_traces(chk, work, [r], lambda _r: "replay")
+            after = len(chk.violations) if hasattr(chk.violations, "__len__") else chk.violations
+            if after != before:
+                bad.append(("crash-model", rp.get("clause")))
         if r["events"]:
             res = trace.validate({(rp["scenario"]["n"], rp["scenario"]["workers"]): [trace.encode_trace(r["events"])]}, procs=1)
             bad += [(c, c) for _o, _n, _w, x in res for (_t, _e, c) in x["bad"] if c in CLAUSES]
